@@ -21,7 +21,7 @@ PROPS = {
     'C02': P('proof', ['C02'], 'encode rounds to nearest code: theorems + correspondence of Yuv::try_from((&Rgb,cfg)) + exact oracle search'),
     'C03': P('proof', ['C03'], 'transfer curves: identity/alias theorems, anchors by kernel evaluation, accuracy theorems as listed + correspondence on all 19 transfer values + f64 oracle search', partial=['accuracy 2.5e-4 (PQ 5.7e-4) over all floats of [0,1] for the 13 non-trivial curves: not proved; covered by bit-exact correspondence + f64 oracle (exhaustive in the thorough tier)']),
     'C04': P('proof', ['C04'], 'XYB forward = opsin definition within 2e-6: theorem for every admissible pixel (fastmath build) + bit-exact correspondence + f64 oracle', partial=['fastmath off: cbrtf is libm (model parameter); correspondence + oracle']),
-    'C05': P('proof', ['C05'], 'XYB round trip: theorems + correspondence + f64 oracle'),
+    'C05': P('proof', ['C05'], 'XYB round trip within 5e-5 on the unit cube: theorem for every pixel (fastmath build) + bit-exact correspondence + f64 oracle', partial=['fastmath off: cbrtf is libm (model parameter); correspondence + oracle']),
     'C06': P('proof', ['C06'], 'primaries conversion: theorems (identical primaries bit-exact, evaluated matrices) + correspondence on all 14 primaries + f64 CIE oracle', partial=['there-and-back within 1e-5 for every pixel: evaluated for white only; correspondence + f64 oracle']),
     'C07': P('proof', ['C07'], 'no UB: loop-safety invariants, constructor invariant, exp2 argument range for every bit pattern + outcome-class correspondence with hook assertions'),
     'C08': P('proof', ['C08'], 'lossless code round trip: theorems + correspondence + exhaustive 8-bit search in the thorough tier'),
